@@ -79,6 +79,8 @@ def oracle(case):
                 prows.append(rest[k:k + case["wrap"]])
     spec = lastext.simple_spec(curves, prows, wrap="YES" if case.get("wrap") else "NO", null=case["null_text"])
     spec["sections"][-1]["ncols"] = c
+    from vlib import strategies as S_
+    S_.apply_scaffold(spec, case.get("scaffold"))
     text = lastext.render(spec)
     policy = case["policy"]
     las = read_text(text, engine=case["engine"], null_policy=policy)
@@ -169,6 +171,8 @@ def read_cases(draw):
                 engine=draw(st.sampled_from(["numpy", "normal"])), wrap=wrap)
     if not wrap and draw(st.integers(0, 3)) == 0:
         case["declared"] = draw(st.integers(0, c))
+    from vlib import strategies as S_
+    case["scaffold"] = draw(S_.scaffold())
     return case
 
 
